@@ -931,3 +931,51 @@ def rule_renorm_power_siblings(ctx):
             "renorm=p that differs from the power of the cutoff mode (renorm=1 with 'rsum2') numpy arrays and other backends are rescaled differently",
             where=f"{f.module.relpath}:{f.lineno}", operand="power-source"))
     return r
+
+
+# ------------------------------------------------ full spectrum before trimming
+def rule_full_spectrum_before_trim(ctx):
+    r = RuleResult(
+        "full-spectrum-before-trim",
+        "the cumulative cutoff rules count on the whole spectrum: wherever the (U, s, VH) handed to "
+        "_trim_and_renorm_svd_result[_numba] comes from a decomposition call that itself takes a `max_bond`, that call must "
+        "be given 'no cap' (a non-positive literal), never a value derived from the caller's max_bond — a spectrum that "
+        "was already capped makes the relative / cumulative thresholds see a smaller total and keep too few values",
+    )
+    m = ctx.prog.module(DECOMP)
+    n = 0
+    for f in m.all_functions:
+        if f.is_alias or isinstance(f.node, ast.Lambda) or f.parent is not None:
+            continue
+        trims = [c for c in ast.walk(f.node) if isinstance(c, ast.Call) and isinstance(c.func, ast.Name) and c.func.id.startswith("_trim_and_renorm_svd_result")]
+        if not trims:
+            continue
+        for t in trims:
+            names = [a.id for a in t.args[:3] if isinstance(a, ast.Name)]
+            if len(names) < 3:
+                continue
+            # producer: the tuple assignment that defines these three names last before the trim
+            prod = None
+            for a in ast.walk(f.node):
+                if isinstance(a, ast.Assign) and isinstance(a.targets[0], ast.Tuple) and [getattr(e, "id", None) for e in a.targets[0].elts] == names and a.lineno < t.lineno and isinstance(a.value, ast.Call):
+                    if prod is None or a.lineno > prod.lineno:
+                        prod = a
+            if prod is None:
+                continue
+            capkw = next((k.value for k in prod.value.keywords if k.arg == "max_bond"), None)
+            if capkw is None:
+                continue  # producer takes no cap (a full decomposition)
+            n += 1
+            construct = f"{f.qualname}->{src_of(prod.value.func)}"
+            where = f"{f.module.relpath}:{prod.lineno}"
+            v = const_value(capkw, "x")
+            if isinstance(v, (int, float)) and not isinstance(v, bool) and v <= 0:
+                r.ok(construct, sample={"function": f.qualname, "decomposition": src_of(prod.value.func), "max_bond": src_of(capkw), "then": t.func.id})
+            else:
+                r.bad(Finding(
+                    "full-spectrum-before-trim", f.qualname,
+                    f"`{src_of(prod.value.func)}(..., max_bond={src_of(capkw)})` feeds {t.func.id}: the spectrum can already be capped when the cutoff rule "
+                    "counts on it, so the kept number is no longer the smallest that satisfies the rule on the full spectrum",
+                    where=where, operand=src_of(prod.value.func)))
+    r.floor(n, 2, "capped-capable decompositions feeding the trimming routine")
+    return r
